@@ -208,8 +208,9 @@ Qed.
 Theorem div_long_spec p m s1 e1 s2 e2 : 1 <= p -> 0 < s2 -> p < dlen NB (Z.quot s1 s2) ->
   let shift := dlen NB (Z.quot s1 s2) - p in
   let r := spec_round m s1 (s2 * NB ^ shift) in
+  r <> 0 /\
   exists s' e' f j, div_long NB p m s1 e1 s2 e2 = CDone s' e' f /\
-    0 <= j /\ e' = e1 - e2 + shift + j /\ r = s' * NB ^ j /\ (r = 0 -> s' = 0) /\
+    0 <= j /\ e' = e1 - e2 + shift + j /\ r = s' * NB ^ j /\
     (f = FExact <-> s1 mod (s2 * NB ^ shift) = 0).
 Proof.
   intros Hp Hs2 Hq shift r. unfold div_long. fold shift. cbn [split_digits].
@@ -221,57 +222,52 @@ Proof.
   assert (Brr : Z.abs rr < s2) by (pose proof (Z.rem_bound_abs s1 s2 ltac:(lia)); unfold rr; lia).
   assert (Blo : Z.abs lo < NB ^ shift).
   { pose proof (Z.rem_bound_abs q (NB ^ shift) ltac:(lia)) as Hb. rewrite (Z.abs_eq (NB ^ shift)) in Hb by lia. exact Hb. }
-  (* lo and rr carry the sign of s1 *)
-  assert (Sg : 0 <= lo * rr).
-  { destruct (Z.le_gt_cases 0 s1) as [Hs|Hs].
+  (* q, lo and rr carry the sign of s1 *)
+  assert (Sg : (0 <= s1 /\ 0 <= q /\ 0 <= rr /\ 0 <= lo) \/ (s1 < 0 /\ q <= 0 /\ rr <= 0 /\ lo <= 0)).
+  { destruct (Z.le_gt_cases 0 s1) as [Hs|Hs]; [left | right].
     - assert (0 <= q) by (apply Z.quot_pos; lia).
-      assert (0 <= rr) by (apply Z.rem_nonneg; lia).
-      assert (0 <= lo) by (apply Z.rem_nonneg; lia). nia.
+      repeat split; auto; apply Z.rem_nonneg; lia.
     - assert (q <= 0).
       { unfold q. rewrite <- (Z.opp_involutive s1), Z.quot_opp_l by lia.
         pose proof (Z.quot_pos (- s1) s2 ltac:(lia) ltac:(lia)). lia. }
-      assert (rr <= 0) by (apply Z.rem_nonpos; lia).
-      assert (lo <= 0) by (apply Z.rem_nonpos; lia). nia. }
+      repeat split; auto; apply Z.rem_nonpos; lia. }
+  assert (Hq0 : q <> 0) by (intros X; rewrite X, dlen_zero in Hq; lia).
+  destruct (dlen_spec NB NB_ge_2 q Hq0) as [[Lq _] _].
+  replace (dlen NB q - 1) with ((p - 1) + shift) in Lq by (unfold shift; lia).
+  rewrite Z.pow_add_r in Lq by (unfold shift; lia).
+  pose proof (Bpow_pos NB NB_ge_2 (p - 1) ltac:(lia)) as Hp1.
   set (rem := lo * s2 + rr). set (den := s2 * NB ^ shift).
   assert (Hden : 0 < den) by (unfold den; nia).
   assert (Es : s1 = hi * den + rem) by (unfold den, rem; rewrite Eq1, Eq2 at 1; ring).
-  assert (Brem : Z.abs rem < den).
-  { unfold rem, den. destruct (Z.le_gt_cases 0 lo), (Z.le_gt_cases 0 rr); try nia. }
+  assert (Brem : Z.abs rem < den) by (unfold rem, den; destruct Sg as [(?&?&?&?)|(?&?&?&?)]; nia).
+  assert (Habs : den <= Z.abs s1) by (unfold den; destruct Sg as [(?&?&?&?)|(?&?&?&?)]; nia).
+  assert (Hr : r <> 0).
+  { intros X. pose proof (spec_round_error m s1 den Hden) as [E _]. cbv zeta in E. change (spec_round m s1 den) with r in E. rewrite X in E. lia. }
+  split; [exact Hr|].
   destruct (Z.eqb_spec rem 0) as [E0|E0].
   - (* exact *)
     assert (Er : r = hi).
     { unfold r. fold den. pose proof (spec_round_exact m s1 den Hden) as X. rewrite Es, E0, Z.add_0_r in *.
       rewrite Z.mod_mul in X by lia. specialize (X eq_refl). nia. }
     pose proof (normalize_spec NB NB_ge_2 hi (e1 - e2 + shift)) as N.
-    destruct (normalize NB hi (e1 - e2 + shift)) as [s' e']. destruct N as [N0 N1].
-    destruct (Z.eq_dec hi 0) as [Hh|Hh].
-    + destruct (N0 Hh) as [-> ->]. exfalso.
-      (* q has more than p >= 1 digits, so hi <> 0 *)
-      assert (Hq0 : q <> 0) by (intros X; rewrite X, dlen_zero in Hq; lia).
-      destruct (dlen_spec NB NB_ge_2 q Hq0) as [[L _] _].
-      replace (dlen NB q - 1) with ((p - 1) + shift) in L by (unfold shift; lia).
-      rewrite Z.pow_add_r in L by (unfold shift; lia).
-      pose proof (Bpow_pos NB NB_ge_2 (p - 1) ltac:(lia)). rewrite Hh in Eq2. nia.
-    + destruct (N1 Hh) as (_ & _ & j & Hj & He & Hv). exists s', e', FExact, j.
-      repeat split; auto; try lia; try congruence.
-      intros _. rewrite Es, E0, Z.add_0_r. fold den. apply Z.mod_mul. lia.
+    destruct (normalize NB hi (e1 - e2 + shift)) as [s' e']. destruct N as [_ N1].
+    destruct (N1 ltac:(lia)) as (_ & _ & j & Hj & He & Hv). exists s', e', FExact, j.
+    split; [reflexivity|]. split; [exact Hj|]. split; [exact He|]. split; [lia|].
+    split; [|reflexivity]. intros _. rewrite Es, E0, Z.add_0_r. fold den. apply Z.mod_mul. lia.
   - pose proof (round_ratio_spec m hi rem den ltac:(lia) ltac:(rewrite (Z.abs_eq den); lia)) as R.
     rewrite (Z.sgn_pos den), Z.mul_1_l, (Z.abs_eq den), <- Es in R by lia.
-    fold den. rewrite R. fold r.
+    fold den. rewrite R. change (spec_round m s1 den) with r.
     pose proof (normalize_spec NB NB_ge_2 r (e1 - e2 + shift)) as N.
-    destruct (normalize NB r (e1 - e2 + shift)) as [s' e']. destruct N as [N0 N1].
+    destruct (normalize NB r (e1 - e2 + shift)) as [s' e']. destruct N as [_ N1].
     assert (Hne : s1 mod den <> 0).
     { rewrite Es, Z.add_comm, Z.mod_add by lia. intros X.
       destruct (Z.le_gt_cases 0 rem).
       - rewrite Z.mod_small in X by lia. lia.
       - pose proof (Z.mod_pos_bound rem den Hden).
-        assert (rem mod den = rem + den).
-        { symmetry. apply (Z.mod_unique rem den (-1)); lia. } lia. }
-    destruct (Z.eq_dec r 0) as [Hr|Hr].
-    + destruct (N0 Hr) as [-> ->]. exists 0, 0, (FInexact (round_ratio m hi rem den)), 0.
-      repeat split; auto; try lia; try discriminate. intros X. contradiction.
-    + destruct (N1 Hr) as (_ & _ & j & Hj & He & Hv). exists s', e', (FInexact (round_ratio m hi rem den)), j.
-      repeat split; auto; try lia; try discriminate. intros X. contradiction.
+        assert (rem mod den = rem + den) by (symmetry; apply (Z.mod_unique rem den (-1)); lia). lia. }
+    destruct (N1 Hr) as (_ & _ & j & Hj & He & Hv). exists s', e', (FInexact (round_ratio m hi rem den)), j.
+    split; [reflexivity|]. split; [exact Hj|]. split; [exact He|]. split; [exact Hv|].
+    split; [discriminate | intros X; contradiction].
 Qed.
 
 End Routes.
@@ -283,8 +279,8 @@ End Routes.
 Theorem convert_base_before_fix_refuted :
   convert_exact_old 2 (1 * 10 ^ 30) 0 = CDone 931322574615478515625 30 FExact /\
   check_contract 2 9 MZero (float_rat 10 1 30) 931322574615478515625 30 FExact = false /\
-  convert_base_asis 10 2 9 MZero 1 30 = CDone 465 51 (FInexact NoOp) /\
-  check_contract 2 9 MZero (float_rat 10 1 30) 465 51 (FInexact NoOp) = true.
+  convert_base_asis 10 2 9 MZero 1 30 = CDone 403 91 (FInexact NoOp) /\
+  check_contract 2 9 MZero (float_rat 10 1 30) 403 91 (FInexact NoOp) = true.
 Proof. vm_compute. repeat split. Qed.
 
 (** F05 (open): the observed answer of the ln/exp route for -98e100 to 332 bits (mode Zero) is one
